@@ -1652,33 +1652,71 @@ func ruleC14R7(w *World, r *Report) {
 		// and AsString = Buffer[pos : pos+i] and skips i
 		var classifiers []string
 		kindIdent, skipN, asString := false, false, false
-		for _, b := range cf.Blocks {
-			for _, in := range b.Instrs {
-				switch x := in.(type) {
-				case *ssa.Call:
-					c := x.Call.StaticCallee()
-					if c == nil {
-						continue
+		// the string a helper of the lexer returns is a slice of the input when every return of it is one
+		var inputSlice func(v ssa.Value, depth int) bool
+		inputSlice = func(v ssa.Value, depth int) bool {
+			if depth > 4 {
+				return false
+			}
+			switch x := v.(type) {
+			case *ssa.Slice:
+				return true
+			case *ssa.Phi:
+				for _, e := range x.Edges {
+					if !inputSlice(e, depth+1) {
+						return false
 					}
-					if c.Pkg != nil && c.Pkg.Pkg.Path() == modRoot+"/char" {
-						classifiers = append(classifiers, c.Name())
+				}
+				return true
+			case *ssa.Call:
+				h := x.Call.StaticCallee()
+				if h == nil || h.Blocks == nil || h.Signature.Recv() == nil || !w.isLexerPtr(h.Signature.Recv().Type()) {
+					return false
+				}
+				n := 0
+				for _, hb := range h.Blocks {
+					if ret, ok := hb.Instrs[len(hb.Instrs)-1].(*ssa.Return); ok && len(ret.Results) == 1 {
+						n++
+						if !inputSlice(ret.Results[0], depth+1) {
+							return false
+						}
 					}
-					if c.Name() == "skipN" {
-						skipN = true
-					}
-				case *ssa.Store:
-					if fa, ok := x.Addr.(*ssa.FieldAddr); ok {
-						if _, isCur := w.curTokenAddr(fa.X); isCur {
-							switch fieldAddrName(fa) {
-							case "Kind":
-								if k, ok := constString(x.Val); ok && k == "<ident>" {
-									kindIdent = true
-								}
-							case "AsString":
-								if sl, ok := x.Val.(*ssa.Slice); ok {
-									lo, hi := w.posLoadOf(sl.Low), sl.High
-									if bo, ok := hi.(*ssa.BinOp); ok && bo.Op == token.ADD && lo != nil && w.posLoadOf(bo.X) != nil {
-										asString = true
+				}
+				return n > 0
+			}
+			return false
+		}
+		for _, sf := range w.withOwnHelpers(cf, "consumeToken", "consumeNumber", "consumeQuotedContent") {
+			for _, b := range sf.Blocks {
+				for _, in := range b.Instrs {
+					switch x := in.(type) {
+					case *ssa.Call:
+						c := x.Call.StaticCallee()
+						if c == nil {
+							continue
+						}
+						if c.Pkg != nil && c.Pkg.Pkg.Path() == modRoot+"/char" {
+							classifiers = append(classifiers, c.Name())
+						}
+						if c.Name() == "skipN" {
+							skipN = true
+						}
+					case *ssa.Store:
+						if fa, ok := x.Addr.(*ssa.FieldAddr); ok {
+							if _, isCur := w.curTokenAddr(fa.X); isCur {
+								switch fieldAddrName(fa) {
+								case "Kind":
+									if k, ok := constString(x.Val); ok && k == "<ident>" {
+										kindIdent = true
+									}
+								case "AsString":
+									if sl, ok := x.Val.(*ssa.Slice); ok {
+										lo, hi := w.posLoadOf(sl.Low), sl.High
+										if bo, ok := hi.(*ssa.BinOp); ok && bo.Op == token.ADD && lo != nil && w.posLoadOf(bo.X) != nil {
+											asString = true
+										}
+									} else if inputSlice(x.Val, 0) {
+										asString = true // the run a helper of the lexer cut out of the input and skipped
 									}
 								}
 							}
@@ -1688,7 +1726,7 @@ func ruleC14R7(w *World, r *Report) {
 			}
 		}
 		sort.Strings(classifiers)
-		okCls := len(classifiers) >= 2
+		okCls := len(classifiers) >= 1
 		for _, c := range classifiers {
 			if c != "IsIdentPart" {
 				okCls = false
